@@ -8,22 +8,25 @@ Inductive node :=
 | Leaf (bucketSize : nat) (splitKey : N)
 | Inner (keys : list N) (children : list node).
 
+Fixpoint list_max (l : list nat) : nat := match l with [] => 0%nat | x :: r => Nat.max x (list_max r) end.
+Fixpoint list_sum (l : list nat) : nat := match l with [] => 0%nat | x :: r => (x + list_sum r)%nat end.
+
 Fixpoint height (n : node) : nat :=
   match n with
   | Leaf _ _ => 0%nat
-  | Inner _ cs => S ((fix go (l : list node) : nat := match l with [] => 0%nat | c :: r => Nat.max (height c) (go r) end) cs)
+  | Inner _ cs => S (list_max (map height cs))
   end.
 
 (** number of leaves / total size of the leaves, in visit order (what freeze accumulates) *)
 Fixpoint nleaves (n : node) : nat :=
   match n with
   | Leaf _ _ => 1%nat
-  | Inner _ cs => (fix go (l : list node) : nat := match l with [] => 0%nat | c :: r => (nleaves c + go r)%nat end) cs
+  | Inner _ cs => list_sum (map nleaves cs)
   end.
 Fixpoint nsizes (n : node) : nat :=
   match n with
   | Leaf bs _ => bs
-  | Inner _ cs => (fix go (l : list node) : nat := match l with [] => 0%nat | c :: r => (nsizes c + go r)%nat end) cs
+  | Inner _ cs => list_sum (map nsizes cs)
   end.
 
 (** leaf.maybeSplit / innerNode.maybeSplit *)
@@ -83,23 +86,26 @@ Definition bt_insert (bsz v : nat) (root : node) (ng : N) : node :=
 
 Definition bt_build (bsz v : nat) (keys : list N) : node := fold_left (bt_insert bsz v) keys (Leaf 0 0).
 
+(** innerNode.find: for i, k := range keys { if ng < k { return children[i].find } }; children[len-1].find.
+    [r] pairs every child with (its find result, its leaf count, its total size). *)
+Fixpoint find_go (ng : N) (ks : list N) (l : list ((nat * nat) * (nat * nat))) : nat * nat :=
+  match l with
+  | [] => (0%nat, 0%nat)
+  | [(fc, _)] => fc
+  | (fc, (nl, ns)) :: r =>
+    match ks with
+    | k :: ks' => if ng <? k then fc
+                  else let '(a, b) := find_go ng ks' r in ((nl + a)%nat, (ns + b)%nat)
+    | [] => let '(a, b) := find_go ng [] r in ((nl + a)%nat, (ns + b)%nat)
+    end
+  end.
+
 (** btree.find after freeze: (bucketIndex, postingIndexOffset) of the leaf reached = number / total size of the
     leaves visited before it *)
 Fixpoint find (n : node) (ng : N) : nat * nat :=
   match n with
   | Leaf _ _ => (0%nat, 0%nat)
-  | Inner keys cs =>
-    (fix go (ks : list N) (l : list node) : nat * nat :=
-       match l with
-       | [] => (0%nat, 0%nat)
-       | [c] => find c ng
-       | c :: r =>
-         match ks with
-         | k :: ks' => if ng <? k then find c ng
-                       else let '(a, b) := go ks' r in ((nleaves c + a)%nat, (nsizes c + b)%nat)
-         | [] => let '(a, b) := go [] r in ((nleaves c + a)%nat, (nsizes c + b)%nat)
-         end
-       end) keys cs
+  | Inner keys cs => find_go ng keys (map (fun c => (find c ng, (nleaves c, nsizes c))) cs)
   end.
 
 Definition last_bucket_index (root : node) : Z := (Z.of_nat (nleaves root) - 1)%Z.
